@@ -15,7 +15,7 @@ def tdInval (s : St) : St :=
 def tdPublish (s : St) (name : String) (snap : Tag) (result : IdSet) : St :=
   match sget s.tags name with
   | some ot =>
-    if ot.defn == snap.defn then
+    if ot.defn == snap.defn && ot.gen == snap.gen then  -- CHANGED (gen)
       tdInval (setTag (qConv s (tdTag snap ot result).convs (tdTag snap ot result).mat) name (tdTag snap ot result))
     else s
   | none => s
@@ -52,18 +52,23 @@ theorem step_importDone_eq (s : St) (processed usednew : Nat) (created : List (N
             queue := (idApply (release { s with all := jnext + usednew, jImport := none } held)
             (jnext + usednew) created (ofList upd) (ofList rst) (ofList add)).queue.drop processed }) st, .none) := rfl
 
-def cdF (ids : IdSet) (t : Tag) : Tag :=
-  if t.mfeat &&& fData == 0 && t.sfeat &&& fData == 0 then t else { t with unc := union t.unc ids }
+-- CHANGED (conv): a tag whose sub-query features include data becomes pending for ALL streams when the
+-- completion reports a non-empty set; `cdF` therefore takes `all`
+def cdF (all : Nat) (ids : IdSet) (t : Tag) : Tag :=
+  if t.sfeat &&& fData != 0 then (if ids.isEmpty then t else { t with unc := rangeSet all })
+  else if t.mfeat &&& fData == 0 then t
+  else { t with unc := union t.unc ids }
 def cdMark0 (s : St) : String × IdSet → St := fun (c, ids) =>
         if !s.convs.contains c then s
         else
           let tags := s.tags.map fun (n, t) =>
-            if t.mfeat &&& fData == 0 && t.sfeat &&& fData == 0 then (n, t)
+            if t.sfeat &&& fData != 0 then (n, if ids.isEmpty then t else { t with unc := rangeSet s.all })
+            else if t.mfeat &&& fData == 0 then (n, t)
             else (n, { t with unc := union t.unc ids })
           { s with tags := tags, upd := union s.upd ids }
 def cdMark (s : St) (p : String × IdSet) : St :=
   if !s.convs.contains p.1 then s
-  else { s with tags := s.tags.map (fun q => (q.1, cdF p.2 q.2)), upd := union s.upd p.2 }
+  else { s with tags := s.tags.map (fun q => (q.1, cdF s.all p.2 q.2)), upd := union s.upd p.2 }
 theorem cdMark0_eq : cdMark0 = cdMark := by
   funext s ⟨c, ids⟩
   simp only [cdMark0, cdMark]
@@ -73,7 +78,9 @@ theorem cdMark0_eq : cdMark0 = cdMark := by
     apply List.map_congr_left
     rintro ⟨n, t⟩ _
     simp only [cdF]
-    split <;> rfl
+    split
+    · rfl
+    · split <;> rfl
 theorem step_convertDone_eq (s : St) (st : Started) :
     step s .convertDone st =
       match s.jConv with
@@ -84,6 +91,9 @@ theorem step_convertDone_eq (s : St) (st : Started) :
 
 def atTag (color defn : String) (f : Facts) (isMark : Bool) : Tag :=
   { defn := defn, mainT := f.main, subT := f.sub, mfeat := f.mfeat, sfeat := f.sfeat, color := color, isMarkDef := isMark }
+/-- the new tag with the identity of the creating call -- CHANGED (gen) -/
+def atTagG (g : Nat) (color defn : String) (f : Facts) (isMark : Bool) : Tag :=
+  { atTag color defn f isMark with gen := g }
 def atPair (s : St) (nt : Tag) (f : Facts) (isMark : Bool) : St × Tag :=
   if isMark then (s, { nt with mat := ofList f.ids }) else (s, { nt with unc := rangeSet s.all })
 def atFinish (s : St) (name : String) (nt : Tag) (isMark : Bool) (st : Started) : St :=
@@ -99,13 +109,14 @@ theorem step_addTag_eq (s : St) (name color defn : String) (f : Facts) (st : Sta
         else if isMark && !f.idsok then (s, .err)
         else if (sget s.tags name).isSome then (s, .err)
         else if (atTag color defn f isMark).refs.any (fun r => (sget s.tags r).isNone) then (s, .err)
-        else (atFinish (atPair s (atTag color defn f isMark) f isMark).1 name
-                (atPair s (atTag color defn f isMark) f isMark).2 isMark st, .ok) := rfl
+        else (atFinish { (atPair s (atTagG s.ngen color defn f isMark) f isMark).1 with  -- CHANGED (gen)
+                  ngen := (atPair s (atTagG s.ngen color defn f isMark) f isMark).1.ngen + 1 } name
+                (atPair s (atTagG s.ngen color defn f isMark) f isMark).2 isMark st, .ok) := rfl
 
 def uqTag (defn : String) (f : Facts) : Tag :=
   { defn := defn, mainT := f.main, subT := f.sub, mfeat := f.mfeat, sfeat := f.sfeat }
 def uqTag2 (nt t : Tag) (all : Nat) : Tag :=
-  { nt with color := t.color, convs := t.convs, refBy := t.refBy, unc := rangeSet all }
+  { nt with color := t.color, convs := t.convs, refBy := t.refBy, gen := t.gen, unc := rangeSet all }  -- CHANGED (gen)
 def uqRefs (s : St) (name : String) (before after : List String) : St :=
   (after.filter (fun r => !before.contains r)).foldl (fun s r => addRefBy s r name)
     ((before.filter (fun r => !after.contains r)).foldl (fun s r => delRefBy s r name) s)
@@ -228,15 +239,19 @@ theorem step_tagDone_fr (s : St) (name : String) (result : List Nat) (st : Start
         (Fr.of_same ⟨rfl, rfl, rfl⟩)
       exact Fr.trans (b := { s with jTag := none }) (Fr.of_same ⟨rfl, rfl, rfl⟩) (tdPublish_fr _ name _ _)
 
-theorem trel_cdF (all : Nat) (ids : IdSet) (t : Tag) : TRel all t (cdF ids t) := by
+theorem trel_cdF (all : Nat) (ids : IdSet) (t : Tag) : TRel all t (cdF all ids t) := by
   unfold cdF; split
-  · exact TRel.refl _ _
-  · exact ⟨rfl, rfl, fun id h _ => by simp [h]⟩
+  · split
+    · exact TRel.refl _ _
+    · exact ⟨rfl, rfl, fun id _ hb => by simpa using hb⟩
+  · split
+    · exact TRel.refl _ _
+    · exact ⟨rfl, rfl, fun id h _ => by simp [h]⟩
 
 theorem cdMark_fr (s : St) (p : String × IdSet) : Fr NT s (cdMark s p) := by
   unfold cdMark; split
   · exact Fr.refl _ _
-  · exact map_fr s _ (fun _ t => cdF p.2 t) rfl rfl rfl (fun _ t => trel_cdF _ _ t)
+  · exact map_fr s _ (fun _ t => cdF s.all p.2 t) rfl rfl rfl (fun _ t => trel_cdF _ _ t)
 
 theorem step_convertDone_fr (s : St) (st : Started) : Fr NT s (step s .convertDone st).1 := by
   rw [step_convertDone_eq]
@@ -263,7 +278,8 @@ theorem step_addTag_fr (s : St) (name color defn : String) (f : Facts) (st : Sta
   rw [step_addTag_eq]
   repeat' split
   all_goals first | exact Fr.refl _ _ | skip
-  rw [atPair_fst]; exact atFinish_fr _ _ _ _ _
+  rw [atPair_fst]
+  exact Fr.trans (b := { s with ngen := s.ngen + 1 }) (Fr.of_same ⟨rfl, rfl, rfl⟩) (atFinish_fr _ _ _ _ _)
 
 theorem uqApply_fr (s : St) (name : String) (t nt : Tag) (st : Started) :
     Fr (· ≠ name) s (uqApply s name t nt st) := by
@@ -474,6 +490,7 @@ theorem same_sget {s s' : St} (h : Same s s') (n : String) : sget s'.tags n = sg
 /-- the answers published by a tagging-job completion -/
 theorem step_tagDone_mat (s : St) (st : Started) (name : String) (snap ot : Tag) (held result : List Nat)
     (hj : s.jTag = some (name, snap, held)) (ht : sget s.tags name = some ot) (hd : ot.defn = snap.defn)
+    (hg : ot.gen = snap.gen)  -- CHANGED (gen)
     (t' : Tag) (h' : sget (step s (.tagDone name result) st).1.tags name = some t') :
     t'.mat = union (diff snap.mat snap.unc) (ofList result) := by
   rw [step_tagDone_eq, hj] at h'
@@ -486,7 +503,7 @@ theorem step_tagDone_mat (s : St) (st : Started) (name : String) (snap ot : Tag)
   unfold tdPublish at h'
   have ht2 : sget ({ s with jTag := none } : St).tags name = some ot := ht
   rw [ht2] at h'
-  simp only [hd, beq_self_eq_true, if_true] at h'
+  simp only [hd, hg, beq_self_eq_true, Bool.and_self, if_true] at h'
   have hk := (tdInval_fr (setTag (qConv { s with jTag := none } (tdTag snap ot (ofList result)).convs
       (tdTag snap ot (ofList result)).mat) name (tdTag snap ot (ofList result)))).keep name trivial
   obtain ⟨t2, h2, hr⟩ := hk.1 (tdTag snap ot (ofList result)) (by simp [setTag, sget_sins])
